@@ -21,7 +21,7 @@ UAddable == SetOf(Uni.addable)
 UInit    == Uni.init
 
 Ops == [op : {"collapse", "instantiate"}, n : UNames, t : {"-"}, s : {0}, k : {0}]
-       \cup [op : {"objget"}, n : UNames, t : UTypes, s : {0}, k : {0}]
+       \cup [op : {"objget", "contains"}, n : UNames, t : UTypes, s : {0}, k : {0}]
        \cup [op : {"objkeys", "getdefault"}, n : {"-"}, t : UTypes, s : {0}, k : {0}]
        \cup [op : {"force"}, n : UNames, t : {"-"}, s : {0}, k : {1, 2}]
        \cup [op : {"reload", "flip"}, n : {"-"}, t : {"-"}, s : {0}, k : {0}]
